@@ -45,8 +45,8 @@ THEOREMS = [P + t for t in (
     ["no_value_piece_data_independent", "value_free_text_depends_only_on_identifiers", "wellformed_extends_to_all_values",
      "all_sites_classified", "value_free_except_listed", "data_independent_except_listed", "params_supplied",
      "wellformed_canonical", "wellformed_all_values_except_listed", "injection_rewrites_statement", "leaked_values_exact",
-     "leaks_nil_of_value_free_atom", "data_independent_up_to_leaks_partial", "wellformed_empty_containers_except_listed",
-     "get_matching_nodes_empty_props_dangling_comma_counterexample"]
+     "leaks_nil_of_value_free_atom", "data_independent_up_to_leaks_partial", "wellformed_empty_containers",
+     "get_matching_nodes_empty_props_wellformed"]
     + [s + "_value_free" for s in VALUE_FREE_SITES]
     + [s + "_value_dependent_counterexample" for s in VALUE_DEPENDENT_SITES])]
 TRUSTED_BASE = [
